@@ -55,6 +55,39 @@ type Result struct {
 	Sigs       []string            `json:"sigs,omitempty"`     // signatures of the non-trivial sub-runs
 	SubSeed    uint64              `json:"sub_seed,omitempty"` // seed of the sub-run that violated
 	Digest     string              `json:"digest,omitempty"`   // C07: what the upstreams and clients saw, independent of scheduling
+	Spin       string              `json:"spin,omitempty"`     // watchdog: the MOSN function a goroutine was spinning in
+}
+
+// spinning returns, per goroutine that is running or runnable with MOSN code on its stack, the
+// innermost MOSN function (harness and runtime frames are skipped).
+func spinning(dump string) map[string]string {
+	out := map[string]string{}
+	for _, g := range strings.Split(dump, "\n\n") {
+		lines := strings.Split(g, "\n")
+		if len(lines) < 2 || !strings.HasPrefix(lines[0], "goroutine ") {
+			continue
+		}
+		hdr := lines[0]
+		i := strings.Index(hdr, "[")
+		if i < 0 || !(strings.HasPrefix(hdr[i:], "[running") || strings.HasPrefix(hdr[i:], "[runnable")) {
+			continue
+		}
+		id := strings.Fields(hdr)[1]
+		for _, l := range lines[1:] {
+			l = strings.TrimSpace(l)
+			if strings.HasPrefix(l, "verif/") {
+				break // harness code on top: not the system under test
+			}
+			if strings.HasPrefix(l, "mosn.io/mosn/pkg/") && !strings.Contains(l, "verifhook") {
+				if k := strings.LastIndex(l, "("); k > 0 {
+					l = l[:k]
+				}
+				out[id] = strings.TrimPrefix(l, "mosn.io/mosn/pkg/")
+				break
+			}
+		}
+	}
+	return out
 }
 
 func writeResult(spec *Spec, r *Result) {
@@ -82,11 +115,42 @@ func TestWorker(t *testing.T) {
 	// real-time watchdog, outside the bubble: a step that never quiesces.
 	go func() {
 		limit := 20 * time.Second
-		time.Sleep(limit)
-		buf := make([]byte, 1<<20)
-		n := runtime.Stack(buf, true)
+		// (a runaway loop that allocates would exhaust the machine long before the limit: stop at 3 GiB)
+		for t0 := time.Now(); time.Since(t0) < limit; time.Sleep(200 * time.Millisecond) {
+			var ms runtime.MemStats
+			runtime.ReadMemStats(&ms)
+			if ms.HeapAlloc > 3<<30 {
+				break
+			}
+		}
+		// Is a goroutine of the system under test spinning? Three stack samples half a second apart:
+		// a goroutine that is running/runnable inside MOSN code in all of them, 20 s into a run that
+		// normally takes milliseconds, makes no progress (a loop that never reaches a blocking point).
+		seen := map[string]int{}
+		where := map[string]string{}
+		var dump string
+		for i := 0; i < 3; i++ {
+			buf := make([]byte, 4<<20)
+			dump = string(buf[:runtime.Stack(buf, true)])
+			for id, fn := range spinning(dump) {
+				seen[id]++
+				if where[id] == "" {
+					where[id] = fn
+				}
+			}
+			time.Sleep(500 * time.Millisecond)
+		}
 		res.Infra = "watchdog: run did not finish in " + limit.String()
-		res.Panic = string(buf[:n])
+		for id, n := range seen {
+			if n == 3 {
+				res.Infra = ""
+				res.Spin = where[id]
+			}
+		}
+		res.Panic = dump
+		if len(res.Panic) > 1<<20 {
+			res.Panic = res.Panic[:1<<20]
+		}
 		writeResult(&spec, res)
 		os.Exit(2)
 	}()
